@@ -1,6 +1,8 @@
-(* C12 - concatenator output is independent of slicing and of save/restore.  Property theorems only. *)
+(* C12 - concatenator output is independent of slicing and of save/restore.  Property theorems
+   only.  The model (model/Concat.v) is the repaired src/concat/mod.rs. *)
 From Coq Require Import NArith List.
-From V Require Import lib.Words model.Concat model.ConcatRun spec.ConcatSpec proofs.Concat_proofs.
+From V Require Import lib.Words model.Concat model.ConcatRun spec.ConcatSpec proofs.Concat_proofs proofs.Concat_inv
+  proofs.Concat_run proofs.Concat_findings.
 Import ListNotations.
 Open Scope N_scope.
 
@@ -10,3 +12,82 @@ Theorem C12_serialize : forall s buf, Inv s -> 21 <= lenN buf ->
   exists b, serialize_to_buffer s buf = Some b /\ lenN b = lenN buf /\ deserialize_from_buffer b = Some s.
 Proof. exact serialize_deserialize_id. Qed.
 Print Assumptions C12_serialize.
+
+(* Any protocol-following script (buffers of bytes, streamed after new_brotli_file), any output
+   buffer sizes (one buffer until full, or a fresh one per call, sizes including 0), any call
+   budget: inserting save/restore before any subset of the calls - or before all of them, as the
+   C ABI does - gives exactly the same run: same emitted bytes, same final result, same trace. *)
+Theorem C12_restore : forall fuel caps percall rall rs tasks s0,
+  Inv s0 -> tasks_ok (Started s0) tasks ->
+  run_native fuel caps percall rall rs tasks s0 = run_native fuel caps percall false [] tasks s0.
+Proof. exact run_restore_irrelevant. Qed.
+Print Assumptions C12_restore.
+
+(* The C ABI wrapper on the serialised form of a state is the native operation on that state. *)
+Theorem C12_ffi_stream : forall s input out, Inv s ->
+  exists st, to_state s = Val st /\
+    broccoli_concat_stream st input out =
+      match stream s input 0 out 0 with
+      | Panic => Panic
+      | Val r => match to_state (r_s r) with
+                 | Panic => Panic
+                 | Val st' => Val (mkC st' (r_in r) (r_out r) (r_off r) (r_rc r))
+                 end
+      end.
+Proof. exact ffi_stream_is_native. Qed.
+Print Assumptions C12_ffi_stream.
+
+(* The full slicing statement: two protocol-following runs over the same members agree on the
+   emitted bytes and on the final result, whatever the input slicing and the output buffer sizes.
+   `chunked` relates a task list to the member list it slices. *)
+Inductive chunks_of : list N -> list task -> list task -> Prop :=
+  | co_nil : forall rest, chunks_of [] rest rest
+  | co_cons : forall c m rest ts, chunks_of m rest ts -> chunks_of (c ++ m) rest (TChunk c :: ts).
+Inductive script_of : list (list N) -> list task -> Prop :=
+  | so_end : script_of [] [TFinish]
+  | so_member : forall m ms ts ts', script_of ms ts -> chunks_of m ts ts' -> script_of (m :: ms) (TFile :: ts').
+Definition enough_fuel (fuel : nat) (caps : list N) (percall : bool) (ts : list task) (s0 : BroCatli) : Prop :=
+  rr_final (run_native fuel caps percall false [] ts s0) <> Looped.
+Definition C12_slicing_stmt : Prop :=
+  forall (members : list (list N)) ts1 ts2 fuel1 fuel2 caps1 caps2 pc1 pc2 s0,
+    Inv s0 -> Forall bytes_ok members -> script_of members ts1 -> script_of members ts2 ->
+    enough_fuel fuel1 caps1 pc1 ts1 s0 -> enough_fuel fuel2 caps2 pc2 ts2 s0 ->
+    let r1 := run_native fuel1 caps1 pc1 false [] ts1 s0 in
+    let r2 := run_native fuel2 caps2 pc2 false [] ts2 s0 in
+    rr_final r1 = rr_final r2 /\ rr_emitted r1 = rr_emitted r2.
+(* Proved so far (C12_slicing_partial below): along every such run no call panics and the
+   invariant holds, so the two runs differ at most in how the same calls are cut.  Missing: the
+   phase-by-phase commutation lemmas (look-ahead collection, header emission, two-byte-delayed body
+   copy commute with splitting the input and with running out of output space); that part of the
+   statement is covered by the differential check only (checks/c12.py: every split point, every
+   zero-space call index, 1-byte buffers, against the one-shot run). *)
+Theorem C12_slicing_partial : forall fuel caps percall rall rs tasks s0,
+  Inv s0 -> tasks_ok (Started s0) tasks ->
+  rr_final (run_native fuel caps percall rall rs tasks s0) <> Panicked.
+Proof. exact run_native_never_panics. Qed.
+Print Assumptions C12_slicing_partial.
+
+(* The code before the repairs violated the slicing statement in three ways (each replayed on the
+   real pre-fix code; all fixed, see known_findings.json): *)
+Theorem C12_slicing_refuted_before_fix_lookahead :
+  rr_final (run_orig 100 [64] false false [] [TFile; TChunk m_a; TFile; TChunk m_meta3_hdr] (o_init None)) = Done Success /\
+  rr_final (run_orig 100 [64] false false [] t_meta3 (o_init None)) = Panicked.
+Proof. exact C12_slicing_refuted_orig_lookahead. Qed.
+Print Assumptions C12_slicing_refuted_before_fix_lookahead.
+
+Theorem C12_slicing_refuted_before_fix_zero_space :
+  result (run_orig 200 [64] true false [] t_two (o_init None)) <> result (run_orig 200 [64; 0; 64] true false [] t_two (o_init None)).
+Proof. exact C12_slicing_refuted_orig_zero_space. Qed.
+Print Assumptions C12_slicing_refuted_before_fix_zero_space.
+
+Theorem C12_slicing_refuted_before_fix_emission :
+  result (run_orig 300 [64] false false [] [TFile; TChunk m_a; TFile; TChunk [44; 0; 77; 3]; TFinish] (o_init None))
+  <> result (run_orig 300 [1] true false [] [TFile; TChunk m_a; TFile; TChunk [44; 0; 77; 3]; TFinish] (o_init None)).
+Proof. exact C12_slicing_refuted_orig_emission. Qed.
+Print Assumptions C12_slicing_refuted_before_fix_emission.
+
+(* Non-vacuity of the hypotheses of C12_restore: a two-member script from the initial state *)
+Example C12_hypotheses_satisfiable :
+  Inv bc_new /\ tasks_ok (Started bc_new) t_two /\
+  result (run_native 200 [3; 0; 1] true true [] t_two bc_new) = result (run_native 200 [64] false false [] t_two bc_new).
+Proof. vm_compute. repeat split; try reflexivity; repeat constructor. Qed.
